@@ -84,7 +84,7 @@ class HeapMixin:
                     c = self.repo.lookup_const(ci, attr)
                     if c is not None:
                         return self.eval(c[0], E.Frame(c[1].mod.relpath, c[1]))
-                if rec.sym is not None:
+                if rec.sym is not None and (ci is None or not ci.is_dataclass):
                     raise E.Unsupported(f"no shape for field {rec.cls}.{attr}")
                 raise E.PyExc(VExc("AttributeError"), f"{rec.cls}.{attr}")
             return VBound(v, attr)
@@ -137,7 +137,17 @@ class HeapMixin:
             return VCallback(f"{v.name}.{attr}", self.cb_spec(f"{v.name}.{attr}", v.spec.get(attr, {}) if isinstance(v.spec, dict) else {}))
         raise E.Unsupported(f"getattr {v!r}.{attr}")
 
+    AST_LISTS = ("args", "keywords", "elts", "values", "ops", "comparators", "generators", "ifs", "keys")
+    AST_STRS = ("id", "arg", "attr")
+
     def any_getattr(self, v, attr):
+        if v.tag == "astnode":
+            # abstract syntax tree of unknown shape: attributes are uninterpreted functions of the node
+            if attr in self.AST_STRS:
+                return VStr(z3.Function(f"ast_{attr}", AnySort, z3.StringSort())(v.t))
+            if attr in self.AST_LISTS:
+                return self.fresh(("list", ("astnode",)), f"ast_{attr}({v.t})")
+            return VAny(z3.Function(f"ast_{attr}", AnySort, AnySort)(v.t), "astnode")
         raise E.Unsupported(f"attribute {attr} of opaque value")
 
     def setattr(self, v, attr, val):
